@@ -18,7 +18,7 @@ else:
         log = subprocess.run(['git', '-C', '/repo', 'log', '--format=%h %s'], capture_output=True, text=True).stdout.splitlines()
         h = [l.split(' ', 1)[0] for l in log if subj in l]
         assert len(h) == 1, h
-        d['findings'].append({'property': pid, 'status': 'fixed', 'commit': h[0], 'key': None, 'what': f'fixed: property={pid} {h[0]} {what}'})
+        d['findings'].append({'property': pid, 'status': 'fixed', 'commit': h[0], 'subject': [l.split(' ', 1)[1] for l in log if subj in l][0], 'key': None, 'what': f'fixed: property={pid} {h[0]} {what}'})
     elif cmd == 'open':
         pid, key, what = sys.argv[2:5]
         d['findings'] = [f for f in d['findings'] if not (f['property'] == pid and f['key'] == key)]
